@@ -41,6 +41,8 @@ structure VideoRegs where
   obp1 : Nat := 0
   wy : Nat := 0
   wx : Nat := 0
+  dots : Nat := 0                -- `current_mode_dots` (timing side, advanced by `Sys.videoRun` only)
+  frames : Nat := 0              -- `frames_completed`
 deriving Repr, DecidableEq
 
 structure Io where
